@@ -30,7 +30,7 @@ META = {
 def main(argv):
     c = vcheck.Check("C11", argv)
     mirrorlib.mirror_check(c, ["C11", "C11Streams"], ["c11sm", "c11g", "c11cur", "c11nil", "c05"], "C11 view streams",
-                           quick=(30, 40), thorough=(400, 50), extra=["-consumers", "-crashes"], templates=[8])
+                           quick=(30, 40), thorough=(400, 50), extra=["-consumers", "-crashes"], templates=[8, 10])
     # callers of Handle* running concurrently (overlapping messages, some giving up early): no model run - the Coq stream
     # monitors judge what the two consumers received and whether they end up current
     mirrorlib.mirror_concurrent(c, ["c11g", "c11sm", "c11cur", "c05"], "C11 view streams under concurrent callers")
